@@ -178,7 +178,7 @@ pub fn main(args: &[String]) -> i32 {
                     run_scenario(&mut out, &t);
                 }
             } else {
-                run_scenario(&mut out, &s);
+                guarded(&mut out, |o| run_scenario(o, &s));
             }
         }
     } else {
@@ -199,7 +199,7 @@ pub fn main(args: &[String]) -> i32 {
             }
             let s = json!({"agg": if r.gen_bool(0.7) {"sum"} else {"mul"}, "prev": r.gen_bool(0.6),
                            "dir": if r.gen_bool(0.6) {"fwd"} else {"rev"}, "F": f});
-            run_scenario(&mut out, &s);
+            guarded(&mut out, |o| run_scenario(o, &s));
         }
     }
     out.flush();
